@@ -25,6 +25,13 @@ pub fn stub_level_off() -> tracing::level_filters::LevelFilter {
     tracing::level_filters::LevelFilter::OFF
 }
 
+/// Replacement for `RandomState::new` (std `HashMap` seeds come from a `getrandom` syscall Kani
+/// does not model): fixed SipHash keys. Only iteration order of std maps depends on them.
+#[cfg(kani)]
+pub fn stub_random_state() -> std::hash::RandomState {
+    unsafe { std::mem::transmute::<[u64; 2], std::hash::RandomState>([0x0123_4567_89ab_cdef, 0x0f1e_2d3c_4b5a_6978]) }
+}
+
 #[cfg(kani)]
 pub fn stub_format(_args: core::fmt::Arguments<'_>) -> String {
     String::new()
@@ -37,6 +44,7 @@ pub mod c04;
 pub mod c05;
 pub mod c06;
 pub mod c07;
+pub mod c08;
 pub mod c10;
 pub mod c11;
 pub mod c12;
@@ -59,6 +67,7 @@ pub fn registry() -> Vec<(&'static str, fn(&mut BytesSrc))> {
     c05::register(&mut v);
     c06::register(&mut v);
     c07::register(&mut v);
+    c08::register(&mut v);
     c10::register(&mut v);
     c11::register(&mut v);
     c12::register(&mut v);
